@@ -1444,7 +1444,7 @@ def result_fate(body, call):
             for pl in rvalue_places(rv):
                 if pl[0] in holders:
                     if rv[0] == "discr":
-                        return "handled"
+                        return _discr_fate(body, call, i)
                     if lhs[0] == 0:
                         return "propagated"
                     if rv[0] in ("use", "ref", "cfd") and len(lhs) == 1 and lhs[0] not in holders:
@@ -1483,6 +1483,43 @@ def result_fate(body, call):
                         return "dropped:drop()"
                     return "propagated"
     return "dropped:unused"
+
+
+def _discr_fate(body, call, discr_bb):
+    """`match`/`if let` on the result: 'handled', or 'dropped:if-let-ok' when the Err arm does nothing"""
+    t = body.blocks[discr_bb]["t"]
+    if t[0] != "switch":
+        return "handled"
+    ok_t = [x for v, x in t[2] if v == "0"]
+    err_t = [x for v, x in t[2] if v == "1"]
+    if not err_t:
+        err_t = [t[3]] if ok_t else []
+    elif not ok_t:
+        ok_t = [t[3]]
+    if not err_t or not ok_t:
+        return "handled"
+    okr = body.reachable_from(ok_t, avoid={discr_bb})
+    okr.discard(discr_bb)
+    cur = err_t[0]
+    seen = set()
+    while cur is not None and cur not in seen and len(seen) < 12:
+        seen.add(cur)
+        if cur in okr:
+            return "dropped:if-let-ok"
+        bl = body.blocks[cur]
+        for st in bl["s"]:
+            if st[0] == "=":
+                rv = st[2]
+                # assigning unit / a constant to a temp is still "nothing"
+                if rv[0] == "use" and rv[1][0] == "k" and st[1] != [0]:
+                    continue
+                return "handled"
+        tt = bl["t"]
+        if tt[0] in ("goto", "falseedge", "falseunwind", "drop"):
+            cur = body.succ[cur][0] if body.succ[cur] else None
+            continue
+        return "handled"
+    return "handled"
 
 
 def _is_read(body, local, defining_call):
